@@ -355,6 +355,17 @@ class SymArr:
         return start, cnt, step
 
     def __getitem__(self, key):
+        from .prelude_groupby import GroupIndex, GroupSeries
+
+        if isinstance(key, GroupIndex):
+            # weights[values.index]: the rows of one group (label-based indexing with the original row index)
+            if self.ndim != 1:
+                raise Unsupported("group indexing of a non 1-D array")
+            snap = self.snapshot()
+            c = ctx()
+            if not _same_dim(self.shape[0], key.gs.n) and not c.in_spec:
+                c.oblige("group_index.length[%s]" % c.fresh_name("gi"), self.shape[0] == key.gs.n, kind="domain")
+            return GroupSeries(key.gs, key.g, lambda p: snap(p))
         # boolean mask
         if isinstance(key, SymArr) and key.kind == "b":
             return self._masked_view(key)
@@ -963,6 +974,11 @@ def mod_nn(a, b):
 
 def _divmod_nn(a, b):
     c = ctx()
+    if getattr(c, "native_divmod", 0):
+        # under a binder (z3 Lambda) quotient and remainder must be FUNCTIONS of the bound variable:
+        # use z3's own integer div / mod (floor semantics for a positive divisor)
+        A, Bz = to_z3(a), to_z3(b)
+        return SymNum(A / Bz, "int"), SymNum(A % Bz, "int")
     _DIVMOD_CACHE = c.divmod_cache
     key = (to_z3(a).get_id(), to_z3(b).get_id())
     if key in _DIVMOD_CACHE:
